@@ -66,6 +66,40 @@ def emit(repo, spec, H):
         ie = " ".join(inits[nth].group(1).split())
         out.append("(* %s: %s: initial %s before do-while #%d: %s *)" % (f, fn, vars_[-1], nth, ie.replace("(*", "( *").replace("*)", "* )")))
         out.append("Definition %s_init %s : Z := %s." % (name, "(%s : Z)" % vars_[0], H.P(ie, [vars_[0]], env).ternary_all()))
+    # the n-th .. occurrences of one call pattern inside a function: group 1 of the regex is an integer expression;
+    # the number of occurrences must equal the number of names (so a removed / added call is loud)
+    for f, fn, rx, names, params, subst in spec.get("call_args", []):
+        body = H.func_body(H.src(repo, f), fn)
+        ms = list(re.finditer(rx, body))
+        if len(ms) != len(names):
+            raise ValueError("%s:%s: call pattern %r occurs %d times, %d expected" % (f, fn, rx, len(ms), len(names)))
+        env = {}
+        env.update(H.all_enums(H.src(repo, f)))
+        env.update(H.defines(repo, f))
+        for m_, name in zip(ms, names):
+            cexpr = " ".join(m_.group(1).split())
+            e = cexpr
+            for k in sorted(subst, key=len, reverse=True):
+                e = e.replace(k, " %s " % subst[k])
+            out.append("(* %s: %s: %s  <- argument %s *)" % (f, fn, " ".join(m_.group(0).split()).replace("(*", "( *").replace("*)", "* )"), cexpr))
+            out.append("Definition %s %s : Z := %s." % (name, " ".join("(%s : Z)" % p for p in params),
+                                                        H.P(e, params, env).ternary_all()))
+    # a statement that must be reached: inside the block that starts at `start`, every `return` in front of the
+    # `target` statement must be guarded by `allowed` (an I/O failure); the definition is 1 if so, else 0
+    for f, fn, start, target, allowed, name in spec.get("guarded_returns", []):
+        body = H.func_body(H.src(repo, f), fn)
+        ms = re.search(start, body)
+        mt = re.search(target, body[ms.end():]) if ms else None
+        if not ms or not mt:
+            raise ValueError("%s:%s: block start / target statement not found" % (f, fn))
+        seg = body[ms.end():ms.end() + mt.start()]
+        rets = [(m_.start(), " ".join(seg[max(0, seg.rfind(";", 0, m_.start()), seg.rfind("{", 0, m_.start()),
+                                             seg.rfind("}", 0, m_.start())) + 1:m_.end()].split()))
+                for m_ in re.finditer(r"\breturn\b[^;]*;", seg)]
+        bad = [r for _, r in rets if not re.fullmatch(allowed, r)]
+        out.append("(* %s: %s: returns in front of the statement %r: %s *)" % (
+            f, fn, target, "; ".join(r for _, r in rets).replace("(*", "( *").replace("*)", "* )") or "none"))
+        out.append("Definition %s : Z := %d." % (name, 0 if bad else 1))
     for f, macro, width in spec.get("float_bits", []):
         d = H.defines(repo, f)
         if macro not in d:
